@@ -675,6 +675,12 @@ def oracle_history(E):
 def oracle_judge(E):
     """Compare the oracle with the observed gradients. Returns None or a description of the first difference."""
     exp = oracle_history(E)
+    if E.raised_at is not None and E.events[E.raised_at][0] == "Backward":
+        # backward may only refuse a root that was not asked to be tracked
+        _, deps, ndeps = oracle_values(E.R)
+        r = E.events[E.raised_at][1]
+        if deps[r] or ndeps[r]:
+            return {"event_index": E.raised_at, "event": list(E.events[E.raised_at]), "problem": "backward raised on a tracked root", "error": E.error}
     for n, (ob, ex) in enumerate(zip(E.obs, exp)):
         if ex is None:
             continue
